@@ -653,7 +653,11 @@ def _struct_pairs(kvs, opts):
     if opts.get("extra") and rng.random() < opts["extra"]:
         for _ in range(rng.randint(1, 2)):
             name = ("zz%d" % rng.randint(0, 99)).encode()
-            val = spec_enc(gen_val(rng, rng.choice(EXTRA_TYPES), 2), dict(opts, extra=0, shuffle=0))
+            if opts.get("raw_extras") and rng.random() < 0.35:
+                # an unknown field is SKIPPED, whatever well-formed item it holds: also items no Rust type of the bridge's data model reads
+                val = bytes.fromhex(rng.choice(RAW_EXTRAS))
+            else:
+                val = spec_enc(gen_val(rng, rng.choice(EXTRA_TYPES), 2), dict(opts, extra=0, shuffle=0))
             pairs.insert(rng.randint(0, len(pairs)), (enc_text(name, opts), val))
     if opts.get("shuffle") and rng.random() < opts["shuffle"]:
         rng.shuffle(pairs)
@@ -725,6 +729,9 @@ def narrow(bits, width):
     return None
 
 
+RAW_EXTRAS = ["c11a65a4f2c0", "c074323031332d30332d32315432303a30343a30305a", "d9d9f700", "c2490100000000000000 00".replace(" ", ""), "f7", "e0", "f3", "f820", "f8ff",
+              "3bffffffffffffffff", "3b8000000000000000", "f93c00", "f97e00", "fa7fc00000", "5f4101420203ff", "7f6161ff", "7fff", "9fc1009fff5f40ffff",
+              "82c100f7", "a1f7c200", "bf61619ff7ffff", "d8184401020304", "c6c6c6c600", "9f9f9f9fffffffff", "a201c10002f7"]
 EXTRA_TYPES = [parse_type(x) for x in
                ["u8", "i64", "str", "bytes", "bool", "f64", "opt(u8)", "seq(u16)", "useq(u8)", "map(u8,str)", "umap(str,seq(u8))",
                 POINT, EXT, "tup(u8,seq(useq(i8)))", "unit", "seq(umap(u8,useq(bool)))"]]
